@@ -195,8 +195,8 @@ PROPS = {
         "assumptions": ["key strings of different slots differ (hex ids/pubkeys)"],
     },
     "C16": {
-        "lean_modules": ["MocProps.C16", "MocProps.C16Restore"], "theorem_files": ["MocProps/C16.lean", "MocProps/C16Restore.lean"],
-        "gen_groups": ["Handlers", "Cache", "Consts"], "stateful": True,
+        "lean_modules": ["MocProps.C16", "MocProps.C16Restore", "MocProps.C16Worker"], "theorem_files": ["MocProps/C16.lean", "MocProps/C16Restore.lean", "MocProps/C16Worker.lean"],
+        "gen_groups": ["Handlers", "Cache", "Consts", "Worker", "Sqlite"], "stateful": True,
         "n_quick": 15000, "n_thorough": 150000, "thorough_seeds": 3,
         "rule": "client message sequences (5-30 messages, all five types; EVENTs incl. duplicates, new versions at -1/0/+1 s, deletion requests, ephemeral; REQs aimed at the content) "
                 "through the real CacheHandler (capacity 1/2/3/5/8/50) and SQLiteHandler (:memory:, bulk size 1) ServeNostr, replies delimited per request by a barrier COUNT; every "
@@ -206,7 +206,11 @@ PROPS = {
                       "its subscription id then exactly one EOSE, COUNT one COUNT, CLOSE/AUTH nothing (other_replies, reply_shape); reply constructors are pinned against regenerated source "
                       "(handlers_source_pinned). Dump/Restore (C16Restore.lean): restoring the dump of ANY store satisfying the invariants - every store reached by insertions does - into a fresh store of the same "
                       "capacity gives a store that answers every list of well-formed filters exactly as the original, for every map iteration order (restore_dump, restore_dump_reachable; via "
-                      "C03's find_eq_spec and C05's Inv2). Runtime-validated: the JSON-lines encoding of the dump, and the SQLite handler's replies (shapes judged by the same monitor).",
+                      "C03's find_eq_spec and C05's Inv2). Runtime-validated: the JSON-lines encoding of the dump, and the SQLite handler's replies (shapes judged by the same monitor). "
+                      "The SQLite handler's asynchronous insert worker is modelled (MocModel/SqlWorker.lean; flush conditions and LRU size regenerated, loop statements pinned) and proved to "
+                      "lose and invent nothing: after any arrivals and ticks, any batch size and whatever the LRU forgets, once flushed the tables are those of ONE batch of every event "
+                      "handed over, in order (worker_equals_one_batch, via batch_split_irrelevant and the settledness lemmas of C14); at run time the handler is driven with several batch "
+                      "sizes / flush intervals and the contents of its REQ replies are judged (C06 judge) behind a barrier event",
         "level_note": "Trusted: Lean kernel + standard axioms; go2lean; harness/driver; SimpleHandler's select loop and channel plumbing (validated with barrier requests).",
         "assumptions": ["for ephemeral events and for equal-created_at versions the OK verdict is not constrained by the monitor", "SQLite inserts are asynchronous: only reply shapes are judged here (content: C06)"],
     },
